@@ -11,11 +11,13 @@ From Persim Require Import Spec.ImageS Model.ImageM Model.KernelM.
 Import ListNotations.
 Open Scope R_scope.
 
-(* the lower limit 0 is written (1 - 1): coq-interval's integral_intro fails to re-fold its goal
-   when the literal 0 of the lower limit also occurs inside the upper limit (e.g. mesh node 0) *)
-Definition PhiI (x : R) : R := 1/2 + / sqrt (2*PI) * RInt (fun t => exp (-(t*t)/2)) (1 - 1) x.
+(* the lower limit 0 is written (0 * PI): coq-interval's integral_intro fails to re-fold its goal
+   when the term of the lower limit also occurs inside the upper limit (a mesh node 0 with the
+   literal 0; a point on a mesh node with (1 - 1)); 0 * PI never occurs in a generated input and
+   evaluates to exactly 0 *)
+Definition PhiI (x : R) : R := 1/2 + / sqrt (2*PI) * RInt (fun t => exp (-(t*t)/2)) (0 * PI) x.
 Lemma PhiI_is_normal_cdf x : PhiI x = 1/2 + / sqrt (2*PI) * RInt (fun t => exp (-(t*t)/2)) 0 x.
-Proof. unfold PhiI. replace (1 - 1) with 0 by lra. reflexivity. Qed.
+Proof. unfold PhiI. replace (0 * PI) with 0 by ring. reflexivity. Qed.
 Definition KgI : R -> R -> R -> kernel :=
   fun sxx sxy syy mb mp x y => gaussian_cdf PhiI (mb, mp) (mk_sigma sxx sxy syy) x y.
 Definition KuI (width height : R) : kernel :=
